@@ -84,7 +84,10 @@ class Check:
         if os.environ.get('VERIF_RECORD_FLOORS') == '1':
             floors[k] = dict(min=(counted * 4) // 5 if counted >= 10 else max(counted - 1, 1 if counted else 0), counted=counted,
                              how='instances matched on the reference tree (%s); the floor is 80%% of that count: it guards against a rule that lost its anchors, not against ordinary code evolution' % time.strftime('%Y-%m-%d'))
-            json.dump(floors, open(FLOORS, 'w'), indent=1, sort_keys=True)
+            tmp = FLOORS + '.tmp%d' % os.getpid()
+            with open(tmp, 'w') as fh:
+                json.dump(floors, fh, indent=1, sort_keys=True)
+            os.replace(tmp, FLOORS)       # atomic: a concurrent reader never sees a half-written file
             return
         if want is None:
             self.fail_closed(rule, 'floor|' + k, 'no floor recorded for %s in analysis/floors.json' % k)
